@@ -474,16 +474,18 @@ impl LdpcDecoder for SimDecoder {
                 for &p in &sf.par_flips {
                     c[k + p] ^= 1;
                 }
-                dstsim::emit(
-                    "frame",
-                    vec![e as i64, w as i64, j as i64, sf.sys_flips.len() as i64, i64::from(sf.success), sf.iterations as i64],
-                );
+                // a decode call that panics produces no frame (whatever its task sends next — a
+                // drop guard's farewell in some designs — is not this frame's result)
                 if let Some(pf) = &cfg.decoder_panic {
                     if pf.workers.contains(&w) && j == pf.at_frame {
                         dstsim::emit("decoder-panic", vec![e as i64, w as i64, j as i64]);
                         dstsim::inject_panic();
                     }
                 }
+                dstsim::emit(
+                    "frame",
+                    vec![e as i64, w as i64, j as i64, sf.sys_flips.len() as i64, i64::from(sf.success), sf.iterations as i64],
+                );
                 let out = DecoderOutput { codeword: c, iterations: sf.iterations };
                 if sf.success { Ok(out) } else { Err(out) }
             }
@@ -639,25 +641,25 @@ pub fn run_one(cfg: &BerCfg) -> BerObs {
 
 /// What the event log says about one Eb/N0 point.
 ///
-/// `recvs`/`frames` are organised by the point a frame was *generated for* (the tag the
-/// scripted decoder reads off the LLR scale; for the other factories the decoder's build
-/// point), not by which task or channel carried it; `worker_tasks`, `joins` and
-/// `terminate_sent` are organised by the point a worker was *built in*.
+/// Everything is organised by the point a frame was *generated for* (the tag the scripted
+/// decoder reads off the LLR scale; for the other factories the decoder's build point), not by
+/// which task or channel carried it, and nothing depends on how the workers are created, how
+/// long they live or how they are told to stop.
 #[derive(Clone, Debug, Default)]
 pub struct PointHistory {
-    pub worker_tasks: Vec<usize>,
-    /// results the collector received for this point, in reception order: (sender task, index
-    /// of that message among the sender's results)
+    /// frame messages the collector (task 0) received for this point, in reception order:
+    /// (decoding task, index of the frame among that task's frames)
     pub recvs: Vec<(usize, u64)>,
-    /// frames by (task, index): (bit_errors, success, iterations)
+    /// frames by (task, index): (bit_errors, success, iterations) — received ones only
     pub frames: std::collections::BTreeMap<(usize, u64), (u64, bool, u64)>,
-    /// results the collector received from workers built in this point that carry no decoded
-    /// frame (the Err(()) a worker forwards when a stage fails)
-    pub err_msgs: u64,
-    pub terminate_sent: usize,
-    pub joins: Vec<(usize, bool)>,
+    /// every frame decoded for this point, per decoding task, in decoding order
+    pub decoded: std::collections::BTreeMap<usize, Vec<(u64, bool, u64)>>,
+    /// frames of this point that were sent on a channel the collector never receives from
+    /// (or were never sent at all): if there are any and none was received, the frames do not
+    /// travel over an observable transport and the order-free oracle applies (tier 2)
+    pub untransported: u64,
     pub chain_fail: u64,
-    /// results sent by workers for this point but never received
+    /// frame messages sent for this point but never received
     pub unconsumed: u64,
 }
 
@@ -666,76 +668,71 @@ pub struct History {
     pub anomalies: Vec<String>,
     /// FIFO / no-loss / no-duplication violation on a results channel, if any
     pub transport: Option<String>,
-    /// a result was received after a worker's error message on the same channel
+    /// a frame was received after a message that carries no frame (a worker's error report, or
+    /// any other control message of the design at hand) on the same channel
     pub recv_after_err: bool,
     /// order of transport events: hash input for the interleaving measure
     pub transport_sig: u64,
-    /// frames handed to a decoder whose worker never sent a result for them
+    /// frames handed to a decoder whose task never sent a message for them
     pub discarded_frames: u64,
+    /// messages without a frame received by the collector (error reports, control messages)
+    pub control_msgs: u64,
+    /// tasks other than the root that decoded frames or sent to the collector
+    pub worker_tasks: std::collections::BTreeSet<usize>,
+    /// joins of such tasks by the root: (task, panicked)
+    pub joins: Vec<(usize, bool)>,
 }
 
 pub fn extract_history(cfg: &BerCfg, events: &[Event], report_chan: Option<usize>) -> History {
-    use std::collections::BTreeMap;
+    use std::collections::{BTreeMap, BTreeSet};
     let mut anomalies = Vec::new();
-    // pass 1: which task is worker (e, w): the decoder for (e, w) is built by the root right
-    // before that worker is spawned
-    let mut task_role: BTreeMap<usize, (usize, usize)> = BTreeMap::new();
-    let mut pending: Option<(usize, usize)> = None;
+    // pass 1: channel roles by traffic. A results channel is one the root receives from (by
+    // recv or by polling) and some other task sends on; a signalling channel is one the root
+    // sends on and some other task receives from (terminate signals, commands). Neither the
+    // kind of the channel nor who created it matters.
+    let mut root_receives: BTreeSet<usize> = BTreeSet::new();
+    let mut others_send: BTreeSet<usize> = BTreeSet::new();
+    let mut others_receive: BTreeSet<usize> = BTreeSet::new();
     for ev in events {
         match &ev.ev {
-            Ev::User { tag: "build-decoder", vals } if ev.task == 0 => pending = Some((vals[0] as usize, vals[1] as usize)),
-            Ev::Spawn { child } if ev.task == 0 => {
-                if let Some(r) = pending.take() {
-                    task_role.insert(*child, r);
+            Ev::Recv { chan, .. } | Ev::TryRecvOk { chan, .. } | Ev::TryRecvEmpty { chan } | Ev::TryRecvDisc { chan } | Ev::RecvDisc { chan } => {
+                if ev.task == 0 {
+                    root_receives.insert(*chan);
+                } else {
+                    others_receive.insert(*chan);
                 }
+            }
+            Ev::Send { chan, .. } | Ev::SendFail { chan } if ev.task != 0 => {
+                others_send.insert(*chan);
             }
             _ => {}
         }
     }
-    // pass 2: channel roles by traffic (not by channel kind or creation order): a worker's
-    // results channel is where it sends, its terminate channel is where it polls
-    let mut results_chans: BTreeMap<usize, ()> = BTreeMap::new();
-    let mut terminate_of: BTreeMap<usize, (usize, usize)> = BTreeMap::new(); // chan -> (e, w)
-    for ev in events {
-        let Some(&(e, w)) = task_role.get(&ev.task) else { continue };
-        match &ev.ev {
-            Ev::Send { chan, .. } | Ev::SendFail { chan } => {
-                if Some(*chan) != report_chan {
-                    results_chans.insert(*chan, ());
-                }
-            }
-            Ev::TryRecvOk { chan, .. } | Ev::TryRecvEmpty { chan } | Ev::TryRecvDisc { chan } | Ev::Recv { chan, .. } | Ev::RecvDisc { chan } => {
-                terminate_of.entry(*chan).or_insert((e, w));
-            }
-            _ => {}
-        }
-    }
-    let npoints = cfg.ebn0s_db.len().max(task_role.values().map(|r| r.0 + 1).max().unwrap_or(0));
+    // A frame's result is at least a bit-error count, an iteration count and two verdicts: a
+    // channel whose messages are 8 bytes or less (a `()` doorbell, a ticket, a flag) cannot carry
+    // one, whatever else flows on it.
+    let tiny: BTreeSet<usize> = events.iter().filter_map(|ev| if let Ev::ChanNew { chan, elem, .. } = &ev.ev { if *elem <= 8 { Some(*chan) } else { None } } else { None }).collect();
+    let results_chans: BTreeSet<usize> = root_receives.intersection(&others_send).copied().filter(|c| Some(*c) != report_chan && !tiny.contains(c)).collect();
+    let npoints = cfg.ebn0s_db.len().max(1);
     let mut points: Vec<PointHistory> = (0..npoints).map(|_| PointHistory::default()).collect();
-    for (t, (e, w)) in &task_role {
-        let p = &mut points[*e];
-        if p.worker_tasks.len() <= *w {
-            p.worker_tasks.resize(*w + 1, usize::MAX);
-        }
-        p.worker_tasks[*w] = *t;
-    }
-    // pass 3: frames, sends, receptions by the collector. A result message is attributed to the
-    // frame its sender decoded most recently and has not reported yet; a send without such a
-    // frame is the worker's error message, and a frame that is decoded but never followed by a
-    // send of its task (a warm-up frame, a frame dropped at shutdown) belongs to no message.
-    // (Counting "k-th frame = k-th send" instead would shift every later frame of a worker that
-    // discards one, and raise an alarm on a design that keeps the property.)
+    // pass 2: frames, sends, receptions. A message is attributed to the frame its sender decoded
+    // most recently and has not reported yet; a send without such a frame carries no frame (the
+    // worker's error report, or a control message of another design); a frame that is decoded
+    // but never followed by a send of its task belongs to no message.
     let mut frame_count: BTreeMap<usize, u64> = BTreeMap::new();
     let mut pending_frame: BTreeMap<usize, u64> = BTreeMap::new();
     let mut discarded_frames = 0u64;
     let mut frame_of: BTreeMap<(usize, u64), (usize, (u64, bool, u64))> = BTreeMap::new(); // (task,k) -> (tag, content)
-    let mut send_count: BTreeMap<usize, u64> = BTreeMap::new();
     let mut send_index: BTreeMap<(usize, usize, u64), u64> = BTreeMap::new(); // (chan, task, seq) -> k
     let mut sent_on: BTreeMap<usize, Vec<(usize, u64)>> = BTreeMap::new(); // chan -> (task, seq) in order
     let mut recv_on: BTreeMap<usize, Vec<(usize, u64)>> = BTreeMap::new();
     let mut err_seen_on: BTreeMap<usize, bool> = BTreeMap::new();
     let mut recv_after_err = false;
-    let mut received: std::collections::BTreeSet<(usize, u64)> = Default::default();
+    let mut control_msgs = 0u64;
+    let mut received: BTreeSet<(usize, u64)> = Default::default();
+    let mut transported: BTreeSet<(usize, u64)> = Default::default();
+    let mut worker_tasks: BTreeSet<usize> = BTreeSet::new();
+    let mut joins = Vec::new();
     let mut sig: u64 = 0xcbf29ce484222325;
     let mut mixin = |a: u64, b: u64| {
         for x in [a, b] {
@@ -743,18 +740,27 @@ pub fn extract_history(cfg: &BerCfg, events: &[Event], report_chan: Option<usize
             sig = sig.wrapping_mul(0x100000001b3);
         }
     };
+    // small stable numbering of tasks for the interleaving signature
+    let mut task_no: BTreeMap<usize, u64> = BTreeMap::new();
+    let mut no = |t: usize| -> u64 {
+        let n = task_no.len() as u64;
+        *task_no.entry(t).or_insert(n)
+    };
     for ev in events {
         match &ev.ev {
             Ev::Send { chan, seq } => {
-                if let (true, Some(&(_, w))) = (results_chans.contains_key(chan), task_role.get(&ev.task)) {
-                    *send_count.entry(ev.task).or_insert(0) += 1;
-                    // u64::MAX: no unreported frame, i.e. an error message
-                    send_index.insert((*chan, ev.task, *seq), pending_frame.remove(&ev.task).unwrap_or(u64::MAX));
+                if ev.task != 0 && results_chans.contains(chan) {
+                    worker_tasks.insert(ev.task);
+                    // u64::MAX: no unreported frame, i.e. a message that carries no frame
+                    let k = pending_frame.remove(&ev.task).unwrap_or(u64::MAX);
+                    if k != u64::MAX {
+                        transported.insert((ev.task, k));
+                    }
+                    send_index.insert((*chan, ev.task, *seq), k);
                     sent_on.entry(*chan).or_default().push((ev.task, *seq));
-                    mixin(1, w as u64);
+                    mixin(1, no(ev.task));
                 } else if ev.task == 0 {
-                    if let Some(&(e, _)) = terminate_of.get(chan) {
-                        points[e].terminate_sent += 1;
+                    if others_receive.contains(chan) {
                         mixin(2, 0);
                     } else if Some(*chan) == report_chan {
                         mixin(3, 0);
@@ -762,49 +768,45 @@ pub fn extract_history(cfg: &BerCfg, events: &[Event], report_chan: Option<usize
                 }
             }
             Ev::SendFail { chan } if ev.task == 0 => {
-                // the worker is already gone: the attempt still counts as signalling it
-                if let Some(&(e, _)) = terminate_of.get(chan) {
-                    points[e].terminate_sent += 1;
+                if others_receive.contains(chan) {
                     mixin(2, 1);
                 }
             }
             // the collector may take results by recv() or by polling: both are receptions
-            Ev::Recv { chan, from, seq } | Ev::TryRecvOk { chan, from, seq } if ev.task == 0 && results_chans.contains_key(chan) => {
+            Ev::Recv { chan, from, seq } | Ev::TryRecvOk { chan, from, seq } if ev.task == 0 && results_chans.contains(chan) => {
                 recv_on.entry(*chan).or_default().push((*from, *seq));
-                if *err_seen_on.get(chan).unwrap_or(&false) {
-                    recv_after_err = true;
-                }
-                if let (Some(&(e_build, w)), Some(&k)) = (task_role.get(from), send_index.get(&(*chan, *from, *seq))) {
-                    mixin(4, w as u64);
+                if let Some(&k) = send_index.get(&(*chan, *from, *seq)) {
+                    mixin(4, no(*from));
                     match frame_of.get(&(*from, k)) {
                         Some(&(tag, content)) => {
+                            if *err_seen_on.get(chan).unwrap_or(&false) {
+                                recv_after_err = true;
+                            }
                             let p = &mut points[tag.min(npoints - 1)];
                             p.recvs.push((*from, k));
                             p.frames.insert((*from, k), content);
                             received.insert((*from, k));
                         }
                         None => {
-                            points[e_build].err_msgs += 1;
+                            control_msgs += 1;
                             err_seen_on.insert(*chan, true);
                         }
                     }
                 }
             }
-            Ev::TryRecvOk { chan, .. } => {
-                if let Some(&(_, w)) = terminate_of.get(chan) {
-                    mixin(5, w as u64);
+            Ev::TryRecvOk { chan, .. } if ev.task != 0 => {
+                if others_receive.contains(chan) {
+                    mixin(5, no(ev.task));
                 }
             }
-            Ev::TryRecvEmpty { chan } => {
-                if let Some(&(_, w)) = terminate_of.get(chan) {
-                    mixin(6, w as u64);
+            Ev::TryRecvEmpty { chan } if ev.task != 0 => {
+                if others_receive.contains(chan) {
+                    mixin(6, no(ev.task));
                 }
             }
             Ev::Join { target, panicked } if ev.task == 0 => {
-                if let Some(&(e, w)) = task_role.get(target) {
-                    points[e].joins.push((w, *panicked));
-                    mixin(7, w as u64);
-                }
+                joins.push((*target, *panicked));
+                mixin(7, no(*target));
             }
             Ev::User { tag, vals } => match *tag {
                 "frame" | "genie-frame" | "diff-frame" => {
@@ -814,8 +816,12 @@ pub fn extract_history(cfg: &BerCfg, events: &[Event], report_chan: Option<usize
                         "genie-frame" => (vals[3] as u64, vals[3] == 0, 1),
                         _ => (0, vals[4] == 1, vals[5] as u64),
                     };
+                    if ev.task != 0 {
+                        worker_tasks.insert(ev.task);
+                    }
                     let k = frame_count.entry(ev.task).or_insert(0);
                     frame_of.insert((ev.task, *k), (e, fr));
+                    points[e.min(npoints - 1)].decoded.entry(ev.task).or_default().push(fr);
                     if pending_frame.insert(ev.task, *k).is_some() {
                         discarded_frames += 1;
                     }
@@ -842,26 +848,25 @@ pub fn extract_history(cfg: &BerCfg, events: &[Event], report_chan: Option<usize
             transport = Some(format!("results channel #{}: received sequence {:?} is not a prefix of the sent sequence {:?}", c, r, sent));
         }
     }
-    // sent but never received, per point of the frame
-    for (c, sent) in &sent_on {
-        for (t, seq) in sent {
-            if let Some(&k) = send_index.get(&(*c, *t, *seq)) {
-                if !received.contains(&(*t, k)) {
-                    if let Some(&(tag, _)) = frame_of.get(&(*t, k)) {
-                        points[tag.min(npoints - 1)].unconsumed += 1;
-                    }
-                }
+    // per point: frames sent but never received; frames that never travelled to the collector
+    for ((t, k), (tag, _)) in &frame_of {
+        let p = &mut points[(*tag).min(npoints - 1)];
+        if transported.contains(&(*t, *k)) {
+            if !received.contains(&(*t, *k)) {
+                p.unconsumed += 1;
             }
+        } else {
+            p.untransported += 1;
         }
     }
-    History { points, anomalies, transport, recv_after_err, transport_sig: sig, discarded_frames }
+    History { points, anomalies, transport, recv_after_err, transport_sig: sig, discarded_frames, control_msgs, worker_tasks, joins }
 }
 
 // ---------------------------------------------------------------------------
 // reference model of the collector
 // ---------------------------------------------------------------------------
 
-#[derive(Clone, Debug, Default, PartialEq)]
+#[derive(Clone, Debug, Default, PartialEq, Eq, PartialOrd, Ord)]
 pub struct RefCounters {
     pub num_frames: u64,
     pub false_decodes: u64,
@@ -1016,6 +1021,125 @@ pub struct OracleStats {
     pub chain_skipped: bool,
 }
 
+/// Order-free search (tier 2): per-task prefix lengths whose summed counters equal those of `s`.
+/// Some(Some(rc)) = found (rc = the reference counters of that selection), Some(None) = no
+/// selection exists, None = budget exhausted.
+pub fn tier2_find(p: &PointHistory, s: &Statistics, t: u64, budget: usize) -> Option<Option<RefCounters>> {
+    // per task: cumulative counters of its prefixes
+    let tasks: Vec<Vec<RefCounters>> = p
+        .decoded
+        .values()
+        .map(|frames| {
+            let mut rc = RefCounters::default();
+            let mut v = vec![rc.clone()];
+            for &(be, succ, it) in frames {
+                rc.add(be, succ, it, t);
+                v.push(rc.clone());
+            }
+            v
+        })
+        .collect();
+    fn add(a: &RefCounters, b: &RefCounters) -> RefCounters {
+        RefCounters {
+            num_frames: a.num_frames + b.num_frames,
+            false_decodes: a.false_decodes + b.false_decodes,
+            total_iterations: a.total_iterations + b.total_iterations,
+            bit_errors: a.bit_errors + b.bit_errors,
+            frame_errors: a.frame_errors + b.frame_errors,
+            correct_iterations: a.correct_iterations + b.correct_iterations,
+            bch_bit_errors: a.bch_bit_errors + b.bch_bit_errors,
+            bch_frame_errors: a.bch_frame_errors + b.bch_frame_errors,
+            bch_correct_iterations: a.bch_correct_iterations + b.bch_correct_iterations,
+        }
+    }
+    let fits = |c: &RefCounters| c.num_frames <= s.num_frames && c.bit_errors <= s.ldpc.bit_errors && c.frame_errors <= s.ldpc.frame_errors && c.total_iterations <= s.total_iterations && c.false_decodes <= s.false_decodes;
+    let is_target = |c: &RefCounters| {
+        c.num_frames == s.num_frames
+            && c.bit_errors == s.ldpc.bit_errors
+            && c.frame_errors == s.ldpc.frame_errors
+            && c.total_iterations == s.total_iterations
+            && c.false_decodes == s.false_decodes
+            && c.correct_iterations == s.ldpc.correct_iterations
+            && s.bch.as_ref().is_none_or(|b| b.bit_errors == c.bch_bit_errors && b.frame_errors == c.bch_frame_errors && b.correct_iterations == c.bch_correct_iterations)
+    };
+    // what the tasks after task i can still contribute at most (everything they decoded)
+    let mut rest: Vec<RefCounters> = vec![RefCounters::default(); tasks.len() + 1];
+    for i in (0..tasks.len()).rev() {
+        rest[i] = add(&rest[i + 1], tasks[i].last().unwrap());
+    }
+    let reachable = |c: &RefCounters, r: &RefCounters| {
+        c.num_frames + r.num_frames >= s.num_frames
+            && c.bit_errors + r.bit_errors >= s.ldpc.bit_errors
+            && c.frame_errors + r.frame_errors >= s.ldpc.frame_errors
+            && c.total_iterations + r.total_iterations >= s.total_iterations
+            && c.false_decodes + r.false_decodes >= s.false_decodes
+    };
+    let mut states: Vec<RefCounters> = vec![RefCounters::default()];
+    let mut work = 0usize;
+    for (i, prefixes) in tasks.iter().enumerate() {
+        let mut next: std::collections::BTreeSet<RefCounters> = Default::default();
+        for st in &states {
+            for pre in prefixes {
+                work += 1;
+                if work > budget {
+                    return None;
+                }
+                let c = add(st, pre);
+                if !fits(&c) {
+                    break; // counters only grow along a task's prefixes
+                }
+                if reachable(&c, &rest[i + 1]) {
+                    next.insert(c);
+                }
+            }
+        }
+        states = next.into_iter().collect();
+    }
+    Some(states.into_iter().find(|c| is_target(c)))
+}
+
+/// Tier-2 oracle for one point: the returned statistics are the sum of whole frames decoded for
+/// the point (a prefix of every task's frames), the error target is met exactly (every frame adds
+/// at most one error, so a collector that stops when the target is met ends on the target), and
+/// the ratios are the stated ones.
+#[allow(clippy::too_many_arguments)]
+fn tier2_point(cfg: &BerCfg, e: usize, p: &PointHistory, s: Option<&Statistics>, k: usize, t: u64, f: u64, v: &mut Vec<Violation>, st: &mut OracleStats) {
+    let Some(s) = s else {
+        // no statistics for the point: the run ended with an error here
+        if !cfg.has_hard_fault() {
+            v.push(Violation::new("stop-rule", format!("point {}: no statistics although no fault was injected", e)));
+        }
+        return;
+    };
+    if s.ebn0_db != cfg.ebn0s_db[e] {
+        v.push(Violation::new("counters", format!("point {}: ebn0_db {} != {}", e, s.ebn0_db, cfg.ebn0s_db[e])));
+    }
+    match tier2_find(p, s, t, 400_000) {
+        None => st.probes.inc("tier-2 search budget exhausted (not judged)"),
+        Some(None) => v.push(Violation::new(
+            "counters",
+            format!(
+                "point {}: the returned counters (frames {}, bit errors {}, frame errors {}, false decodes {}, iterations {}/{}) are not those of any set of whole frames decoded for the point (per task: {:?})",
+                e, s.num_frames, s.ldpc.bit_errors, s.ldpc.frame_errors, s.false_decodes, s.total_iterations, s.ldpc.correct_iterations,
+                p.decoded.values().map(|x| x.len()).collect::<Vec<_>>()
+            ),
+        )),
+        Some(Some(rc)) => {
+            st.frames_total += rc.num_frames;
+            let errs = rc.errors_for_termination(t);
+            if errs > f {
+                v.push(Violation::new("stop-rule", format!("point {}: {} frame errors counted, target {}", e, errs, f)));
+            } else if errs < f && !cfg.has_hard_fault() {
+                v.push(Violation::new("stop-rule", format!("point {}: stopped with {} frame errors, target {}", e, errs, f)));
+            }
+            if f == 0 && rc.num_frames > 0 {
+                v.push(Violation::new("stop-rule", format!("point {}: {} frames counted although the error target is 0", e, rc.num_frames)));
+            }
+            compare_stats(s, &rc, k, t, &format!("point {} returned statistics", e), v);
+        }
+    }
+}
+
 pub fn oracle_c13(cfg: &BerCfg, obs: &BerObs) -> (Vec<Violation>, OracleStats) {
     let mut v: Vec<Violation> = Vec::new();
     let mut st = OracleStats { probes: Counters::default(), frames_total: 0, chain_skipped: false };
@@ -1147,8 +1271,23 @@ pub fn oracle_c13(cfg: &BerCfg, obs: &BerObs) -> (Vec<Violation>, OracleStats) {
         // matters is that the run ends with an error and that nothing more is counted
         st.probes.inc("results received after a worker reported an error");
     }
-    let mut folds: Vec<Vec<RefCounters>> = Vec::new(); // per point: prefix folds (index = frames)
+    if hist.control_msgs > 0 {
+        st.probes.add("messages without a frame received by the collector (error reports / control messages)", hist.control_msgs);
+    }
+    // per point: tier 1 = reception-order folds (index = frames counted); tier 2 = None
+    let mut folds: Vec<Option<Vec<RefCounters>>> = Vec::new();
     for (e, p) in hist.points.iter().enumerate() {
+        let n_decoded: usize = p.decoded.values().map(|v| v.len()).sum();
+        // Tier 2: frames were decoded for this point, but none of them travelled to the
+        // collector over a channel it receives from (shared memory under a lock, a ledger the
+        // workers fill themselves, an aggregating thread in between, ...). The order in which
+        // the frames were counted is then not observable, and the oracle is the order-free one.
+        if p.recvs.is_empty() && p.untransported > 0 && n_decoded > 0 {
+            st.probes.inc("tier-2 point: frames do not travel over a channel to the collector; order-free oracle");
+            tier2_point(cfg, e, p, stats_vec.and_then(|sv| sv.get(e)), k, t, f, &mut v, &mut st);
+            folds.push(None);
+            continue;
+        }
         // the frames generated for this point, in the order the collector received them; the
         // collector must count them one by one until the error target is met, and no further
         let mut rc = RefCounters::default();
@@ -1164,11 +1303,12 @@ pub fn oracle_c13(cfg: &BerCfg, obs: &BerObs) -> (Vec<Violation>, OracleStats) {
             all.add(be, succ, it, t);
             all_prefix.push(all.clone());
         }
-        let err_msg_seen = p.err_msgs > 0;
         st.frames_total += rc.num_frames;
         // 2. stopping rule
         let finished_normally = rc.errors_for_termination(t) >= f;
-        if !finished_normally && !err_msg_seen {
+        // a point the run never reached (it ended with an error at an earlier point) owes nothing
+        let reached = e == 0 || n_decoded > 0 || stats_vec.is_some_and(|sv| e < sv.len());
+        if !finished_normally && reached {
             // the point ended before the target: only legitimate under a fault
             if !cfg.has_hard_fault() {
                 v.push(Violation::new(
@@ -1211,15 +1351,12 @@ pub fn oracle_c13(cfg: &BerCfg, obs: &BerObs) -> (Vec<Violation>, OracleStats) {
                 }
             }
         }
-        // 6. terminate + joins (workers built in this point)
-        let nworkers = p.worker_tasks.len();
-        if result.is_ok() && p.joins.len() != nworkers {
-            v.push(Violation::new("joins", format!("point {}: {} of {} workers joined", e, p.joins.len(), nworkers)));
-        }
-        if p.terminate_sent < nworkers {
-            st.probes.inc("point ended with fewer terminate signals than workers");
-        }
-        folds.push(prefix);
+        folds.push(Some(prefix));
+    }
+    // 6. joins: what the property asks for is that no worker outlives `run` (checked above as
+    // "leak"); how many join calls there are, and when, is the design's business
+    if result.is_ok() && hist.joins.len() < hist.worker_tasks.len() {
+        st.probes.inc("fewer join calls than worker tasks (not judged: no task was alive at return)");
     }
 
     // 5. reports
@@ -1247,16 +1384,38 @@ pub fn oracle_c13(cfg: &BerCfg, obs: &BerObs) -> (Vec<Violation>, OracleStats) {
             }
         }
         for (e, list) in per_point.iter().enumerate() {
-            let Some(prefix) = folds.get(e) else { continue };
+            let Some(fold) = folds.get(e) else { continue };
             let mut last_n = 0u64;
             // a point that never started (the run ended with an error at an earlier point)
             // owes no report
             let p = &hist.points[e];
-            let started = !p.worker_tasks.is_empty() || !p.recvs.is_empty() || stats_vec.is_some_and(|sv| e < sv.len()) || e == 0;
-            let earlier_all_started = (0..e).all(|i| !hist.points[i].worker_tasks.is_empty() || !hist.points[i].recvs.is_empty());
-            if list.is_empty() && !(started || (result.is_ok() && earlier_all_started)) {
+            let started = !p.decoded.is_empty() || !p.recvs.is_empty() || stats_vec.is_some_and(|sv| e < sv.len()) || e == 0;
+            if list.is_empty() && !(started || result.is_ok()) {
                 continue;
             }
+            let Some(prefix) = fold else {
+                // tier 2: every report is the sum of some per-task prefixes, frames never go
+                // down, and the last report is the returned statistics
+                for (i, s) in list.iter().enumerate() {
+                    if s.num_frames < last_n {
+                        v.push(Violation::new("reports", format!("point {}: report frames went from {} to {}", e, last_n, s.num_frames)));
+                    }
+                    last_n = s.num_frames;
+                    match tier2_find(p, s, t, 200_000) {
+                        Some(Some(rc)) => compare_stats(s, &rc, k, t, &format!("point {} report {}", e, i), &mut v),
+                        Some(None) => v.push(Violation::new("reports", format!("point {} report {}: its counters are not those of any set of whole frames decoded for the point", e, i))),
+                        None => st.probes.inc("tier-2 search budget exhausted (not judged)"),
+                    }
+                }
+                if list.is_empty() {
+                    v.push(Violation::new("reports", format!("point {}: no statistics report (a final one is required)", e)));
+                } else if let Some(s) = stats_vec.and_then(|sv| sv.get(e)) {
+                    if !counters_equal_ignoring_time(list.last().unwrap(), s) {
+                        v.push(Violation::new("reports", format!("point {}: final report differs from the returned statistics", e)));
+                    }
+                }
+                continue;
+            };
             if list.is_empty() {
                 v.push(Violation::new("reports", format!("point {}: no statistics report (a final one is required)", e)));
                 continue;
